@@ -226,7 +226,7 @@ def dstep (s : DState) (toks : List String) : DState × List String :=
     | none => (s, ["bad-op"])
   | "app" :: what :: args =>
     if !s.started then (s, ["bad-op"]) else
-    let good := (what = "copyrects" ∧ args.length = 1) ∨ (what = "cuttext" ∧ args.length = 1) ∨ (what = "cututf8" ∧ args.length = 1) ∨
+    let good := (what = "copyrects" ∧ args.length = 1) ∨ (what = "cuttext" ∧ args.length = 1) ∨ (what = "cututf8" ∧ args.length = 1) ∨ (what = "cursor" ∧ args.length = 2) ∨
       (what = "bell" ∧ args.length = 0) ∨ (what = "copy" ∧ args.length = 6)
     if !good then (s, ["bad-op"]) else
     -- a server-initiated write blocks on a stop-reading peer: its fate is not modelled
